@@ -112,6 +112,35 @@ fn escape_case(out: &mut Out, v: &str, class: &str) {
                 Ok(got) => out.r(&format!("filter.value {}", hv), got == vb, &format!("parser read value {}", hex(&got))),
                 Err(why) => out.r(&format!("filter.value {}", hv), false, &why),
             }
+            // … and in every other place a value can stand: without the outer parentheses (the value then runs to
+            // the end of the string), after `>=` `<=` `~=` `:=`, as initial / any / final piece of a substring
+            // filter, under `&` `|` `!`. The real parser's BER, read by the Lean spec reader and printed canonically,
+            // must be the string itself in normal form (escapes lower-cased, parentheses supplied) — the value
+            // octets exactly `v`, nothing trimmed, merged or reinterpreted.
+            if hv.len() <= 160 {
+                let mut forms: Vec<String> = vec![
+                    format!("a={}", e), format!("(a>={})", e), format!("(a<={})", e), format!("(a~={})", e), format!("(a:={})", e),
+                    format!("a>={}", e), format!("a:={}", e), format!("(a:dn:2.5.13.2:={})", e),
+                    format!("(&(o=x)(a={}))", e), format!("(|(a={})(o=x))", e), format!("(!(a={}))", e),
+                ];
+                if !e.is_empty() {
+                    forms.push(format!("(a={}*)", e));
+                    forms.push(format!("(a=*{})", e));
+                    forms.push(format!("(a=x*{}*y)", e));
+                    forms.push(format!("a=*{}", e));
+                    forms.push(format!("(a={}*{}*{})", e, e, e));
+                }
+                for f in forms {
+                    let got = crate::lanes::filter::real(f.as_bytes());
+                    out.m(&format!("filter.parse {}", hex(f.as_bytes())), &got.show());
+                    match &got {
+                        crate::lanes::filter::Outc::Ok(ber) => {
+                            out.o(&format!("spec.filter.print {}", hex(ber)), &hex(&crate::lanes::filter::norm_top(f.as_bytes())));
+                        }
+                        _ => out.r(&format!("filter.escaped-value-accepted {}", show(&f)), false, &got.show()),
+                    }
+                }
+            }
             // round trip
             let e2 = e.clone();
             match guarded(move || ldap_unescape(e2.as_str()).map(|c| c.into_owned())) {
